@@ -33,7 +33,7 @@ for s in vcheck.all_specs():
         okt, outt, ch = vcheck.gen_tables(s, vh)
         if not okt:
             print(outt[-2000:]); sys.exit(1)
-okc, outc, first = vcheck.coq_build(sorted({t for s in specs for t in s["coq_targets"]}), timeout=3000)
+okc, outc, first = vcheck.coq_build(sorted({t for s in specs for t in vcheck.spec_targets(s)}), timeout=3000)
 print(outc[-3000:])
 sys.exit(0 if okc else 1)
 PY
